@@ -195,15 +195,19 @@ struct spin_barrier {
 };
 
 // ---------------------------------------------------------------- cpu reservation
+inline cpu_set_t original_affinity() { // affinity of the process before any team pinned the main thread
+    static cpu_set_t saved;
+    static bool have = false;
+    if (!have) { CPU_ZERO(&saved); sched_getaffinity(0, sizeof saved, &saved); have = true; }
+    return saved;
+}
 struct cpu_reservation {
     std::vector<int> cpus;
     std::vector<int> fds;
     bool reserve(int n, const std::string &dir, uint64_t seed) {
         if (dir.empty()) return false;
         mkdir(dir.c_str(), 0777);
-        cpu_set_t avail;
-        CPU_ZERO(&avail);
-        if (sched_getaffinity(0, sizeof avail, &avail) != 0) return false;
+        cpu_set_t avail = original_affinity();
         std::vector<int> cand;
         for (int c = 0; c < CPU_SETSIZE; c++) if (CPU_ISSET(c, &avail)) cand.push_back(c);
         rng r(seed ^ 0xC0FFEE);
@@ -314,7 +318,8 @@ public:
         if (n > MAX_TEAM) n = MAX_TEAM;
         g_team.nteam = n;
         for (int i = 0; i < MAX_SLOTS; i++) { for (int k = 0; k < NSITES; k++) g_team.slots[i].hits[k] = 0; g_team.slots[i].stalls_fired = 0; }
-        cocls::verif::hook_handler = &hook_handler;
+        if (cocls::verif::hook_handler != &hook_handler) cocls::verif::hook_handler = &hook_handler; // installed once, never removed (detached library threads may still call it)
+        (void)original_affinity();
         pinned = n > 1 && res.reserve(n, o.cpudir, o.seed);
         g_team.yieldy = !pinned && n > 1;
         stall_enabled = o.stall != 0;
@@ -338,24 +343,31 @@ public:
         if (n > 1) start_b.wait(tl_slot);
         for (auto t : threads) pthread_join(t, nullptr);
         if (has_wd) { g_team.watchdog_stop.store(1); wd.join(); }
-        cocls::verif::hook_handler = nullptr;
+        if (pinned) { cpu_set_t o = original_affinity(); pthread_setaffinity_np(pthread_self(), sizeof o, &o); }
     }
     // prepares the stall plan of the coming round. sites: candidate sites. Returns textual description.
     std::string plan(rng &r, const int *sites, int nsites, int max_entries = 3) {
+        return plan_by([&](int) { return std::make_pair(sites, nsites); }, r, n, max_entries);
+    }
+    // chooser(tid) -> (sites, count) relevant for the role of that thread (tid == -1: auxiliary library threads)
+    template <typename Chooser>
+    std::string plan_by(Chooser &&chooser, rng &r, int nactive, int max_entries = 3) {
         std::string d;
         for (int i = 0; i < MAX_SLOTS; i++) { g_team.slots[i].nplan = 0; }
         for (int k = 0; k < 4; k++) g_team.aux_nplan[k] = 0;
-        if (!stall_enabled || nsites == 0) return d;
+        if (!stall_enabled) return d;
         static const int wts[8] = {0, 1, 1, 1, 2, 2, 2, 3};
         int cnt = std::min(max_entries, wts[r.below(8)]);
+        if (nactive > n) nactive = n;
         for (int k = 0; k < cnt; k++) {
+            int who = (int)r.below((uint32_t)(nactive + (aux_targets ? 1 : 0)));
+            auto ss = chooser(who < nactive ? who : -1);
+            if (!ss.first || ss.second <= 0) continue;
             stall_entry e;
-            e.site = sites[r.below((uint32_t)nsites)];
-            e.nth = 1 + (int)r.below(3);
-            if (r.chance(1, 6)) e.nth += (int)r.below(6);
+            e.site = ss.first[r.below((uint32_t)ss.second)];
+            e.nth = r.chance(2, 3) ? 1 : 2 + (int)r.below(r.chance(1, 4) ? 6 : 2);
             e.ticks = 1 + (int)r.below(r.chance(1, 4) ? 60 : 12);
-            int who = (int)r.below((uint32_t)(n + (aux_targets ? 1 : 0)));
-            if (who < n) {
+            if (who < nactive) {
                 slot &s = g_team.slots[who];
                 if (s.nplan < 4) { int np = s.nplan; s.plan[np] = e; s.nplan = np + 1; }
                 d += "t" + std::to_string(who);
